@@ -468,3 +468,26 @@ def gen_zone_top_scenario(rng, tier='quick'):
         st.append(['data', 2 if bits > 8 else 1, [('lab', 'zone_end')]] if bits > 8 else ['data', 2, [('lab', 'zone_end')]])
     return {'cfg': cfg, 'files': [{'name': 'main.asm', 'dir': 'src', 'stmts': st}], 'include_dirs': ['lib'], 'extra_files': [],
             'fault': fault, 'opts': {'start': cfg['origin'], 'end': None, 'fill': 0}}
+
+
+# ------------------------------------------------------------------------------------------------ labels in front of embedded strings
+def gen_embedded_label_scenario(rng, tier='quick'):
+    """embedded strings enabled; labels directly in front of embedded strings (on the same line or on a line of their own),
+    strings after instructions, references to the labels: for the layout ties"""
+    cfg = base_cfg(rng, {'p_zones': 0.0, 'p_data': 0.0})
+    cfg['embedded'] = True
+    cfg['page'] = 1
+    st = []
+    names = ['msg_a', 'msg_b', '_msg_c', 'msg_d']
+    rng.shuffle(names)
+    used = []
+    for nm in names[:rng.randint(1, 4)]:
+        used.append(nm)
+        st.append(['label', nm])
+        text = ''.join(rng.choice('abcXYZ 019!#$%&()*+,-./:<=>?@[]^_{|}~') for _ in range(rng.randint(1, 6)))
+        st.append(['str', 'embedded', '"', text])
+        if rng.random() < 0.4:
+            st += [['instr', 'nop', []], ['str', 'embedded', '"', 'ok']]
+    st.append(['data', 2, [('lab', n) for n in used]])
+    return {'cfg': cfg, 'files': [{'name': 'main.asm', 'dir': 'src', 'stmts': st}], 'include_dirs': ['lib'], 'extra_files': [],
+            'fault': 'embedded-labels', 'opts': _opts(rng, cfg)}
